@@ -25,6 +25,8 @@ def beq : Val → Val → Bool
 | .null, .null => true
 | .int a, .int b => a == b
 | .bool a, .bool b => a == b
+| .int a, .bool b => a == (if b then 1 else 0)       -- Python: bool is an int (True == 1)
+| .bool a, .int b => (if a then 1 else 0) == b
 | .status a, .status b => a == b
 | .str a, .str b => a == b
 | .obj a, .obj b => beqL a b
@@ -36,6 +38,12 @@ def beqL : List (String × Val) → List (String × Val) → Bool
 end
 
 instance : BEq Val := ⟨beq⟩
+
+/-- numeric view used by the ordering operators: ints, and bools as 0 / 1 (Python: bool is a subclass of int) -/
+def num? : Val → Option Int
+| .int n => some n
+| .bool b => some (if b then 1 else 0)
+| _ => none
 
 /-- `utilities.is_primitive` as far as the modelled value shapes go -/
 def isPrimitive : Val → Bool
